@@ -2167,9 +2167,10 @@ func (bc *Blockchain) storeBlock(block *block.Block, txpool *mempool.Pool) error
 	if err != nil {
 		// Release goroutines, don't care about errors, we already have one.
 		<-aerdone
-		// Here MPT can be left in a half-applied state.
-		// However if this error occurs, this is a bug somewhere in code
-		// because changes applied are the ones from HALTed transactions.
+		// If this error occurs, this is a bug somewhere in code because
+		// changes applied are the ones from HALTed transactions. MPT is
+		// left in a half-applied state, drop it.
+		bc.stateRoot.DropMPTBatch()
 		return fmt.Errorf("error while trying to apply MPT changes: %w", err)
 	}
 	if bc.config.StateRootInHeader && bc.HeaderHeight() > sr.Index && sr.Index > bc.config.TrustedHeader.Index {
@@ -2182,6 +2183,7 @@ func (bc *Blockchain) storeBlock(block *block.Block, txpool *mempool.Pool) error
 		if err != nil {
 			// Release goroutines, don't care about errors, we already have one.
 			<-aerdone
+			bc.stateRoot.DropMPTBatch()
 			return err
 		}
 	}
@@ -2199,6 +2201,7 @@ func (bc *Blockchain) storeBlock(block *block.Block, txpool *mempool.Pool) error
 
 	aererr := <-aerdone
 	if aererr != nil {
+		bc.stateRoot.DropMPTBatch()
 		return aererr
 	}
 
